@@ -242,6 +242,20 @@ CLAIMS = {
                 'file parsing. A name comparator other than strcmp is reported until reviewed (rules/C19.py).',
         'design': 'DESIGN.md section 3, C19',
     },
+    'C17': {
+        'technique': 'static analysis: who-may-call scans of the completion funnel and the reply table, lock '
+                     'typestate over every function with a naming contract (callee preconditions, exit state, '
+                     'HAVE_LOCK_CHECK beliefs), zero-skipping typestate of the serial counter, must-pass-through of '
+                     'the pending-reply match before filters',
+        'text': 'Decides that completion goes through one funnel that detaches the call between start and finish, '
+                'that timeout errors have three reviewed producers and cancel only detaches, that ~130 functions of '
+                'dbus-connection.c / dbus-pending-call.c respect the lock contract their names state on every path, '
+                'that the serial counter starts at 1, only increments and skips 0, and that a reply is matched to its '
+                'pending call before any filter or object handler sees it.',
+        'note': NOT_DECIDED_COMMON + 'Not decided: interleavings of reply arrival, timeout, cancellation and blocking '
+                'waits across threads; lock state of unsuffixed static helpers.',
+        'design': 'DESIGN.md section 3, C17',
+    },
 }
 
 NOT_APPLICABLE = {
